@@ -29,12 +29,16 @@ type W2Opt struct {
 	NilTagPct   int  // requests that make the engine panic on the caller's goroutine
 	OptPct      int
 	UpdFromRule bool
+	BigPools    bool // a few runs use pools of 33-70 instances
 	Restore     bool // the root task re-installs the initial text before the final probe round (C17 with admins)
 	Scripted    bool // C16: a single task alternates operations, queries and probe rounds
 	Oracle      func(w *W2Run) []Violation
 }
 
 var poolSizes = [][2]int{{1, 2}, {1, 3}, {2, 3}, {2, 4}, {3, 5}}
+
+// now and then a pool with more instances than a machine word has bits
+var bigPoolSizes = [][2]int{{2, 66}, {60, 70}, {65, 66}, {30, 33}}
 
 func holdGate(call int) int64 { return simrt.HoldGateBit | int64(call) }
 
@@ -383,6 +387,9 @@ func RunW2(opt *W2Opt, plan, sched *simrt.Source, trace bool) *RunOut {
 	text := RenderSet(rules)
 	g.Hist = append(g.Hist, initialOp(rules, text))
 	size := poolSizes[g.Intn(len(poolSizes))]
+	if opt.BigPools && g.Pct(4) {
+		size = bigPoolSizes[g.Intn(len(bigPoolSizes))]
+	}
 	em := 1 + g.Intn(4)
 	w := &W2Run{Opt: opt, Min: size[0], Max: size[1], EM: em, Rules: rules, Out: o, NilTag: map[int]bool{}}
 	sc := &Scenario{Universe: rules}
